@@ -77,6 +77,8 @@ def origin_of(body, local, depth=8):
 
 
 def run(ctx):
+    from .. import wrappers
+    wrappers.check(ctx, ["set_input_fc", "set_input_fd", "set_input_fe", "set_input_ff"])     # the outer Machine methods the callers use are the routines analysed below
     p = ctx.p
     chk = ctx.chk
     I = absint.Interp(p)
@@ -285,6 +287,10 @@ def run(ctx):
                "Bus::output_%s returns what the program wrote to %#04x" % (nm, 0xFE + k), p.need_body("%s::output_%s" % (BUS, nm)).loc(),
                "output_fe(), output_ff() after the write: %s" % got)
 
+    # ---- a program's load/store is the bus access the control word asks for: on every path, at the address in the
+    # selected register, storing the ALU output (pipeline agreement, shared with C01) ---------------------------------
+    from .. import pipeline
+    pipeline.check(ctx, prefix="cpu-pipeline")
     # ---- the CPU reaches bus state only through Bus::read / Bus::write ------------------------------
     cg = mirutil.call_graph(p)
     RMP = "L::machine::raw::"
